@@ -16,6 +16,12 @@ def stepC14 (_ : Unit) (ws : List String) : Unit × String :=
     | ["after", _] => "append-ok"     -- locks are released when every call has returned (Props.locks_released, later_append_succeeds)
     | ["longhold", _] => "excluded"   -- mutual exclusion holds in every reachable state, whatever time passes (Props.mutual_exclusion)
     | ["stress", _, _, _] => "consistent"   -- judged by the property oracle on the real file, not by the model
+    | ["hdr", n0, hold, nw] =>               -- header writers on .post; the fallback writer, if the source has one, is followed
+        match n0.toNat?, hold.toNat?, nw.toNat? with
+        | some n, some h, some w => if 1 ≤ h && h ≤ 4 && w ≤ 8 then runHdr sourceCleansUp sourceBypass n h w else "bad-op"
+        | _, _, _ => "bad-op"
+    | ["postlog", _, _] => "consistent"     -- header writers released together: judged by the property oracle
+    | ["mix", _, _, _, _] => "consistent"   -- commenters + appenders + a second process: judged by the property oracle
     | _ => "bad-op"
   ((), out)
 
